@@ -413,6 +413,10 @@ func siteIndex(name string) int {
 
 // CheckStats is the concurrent half of C20.
 func (t *Trial) CheckStats(col *core.Collector, f *Final) (string, bool) {
+	col.Count("c20.monotonicity_samples", t.statSamples.Load())
+	if p := t.statDecrease.Load(); p != nil {
+		return *p, true
+	}
 	s := t.Cache.Stats()
 	var lookups, minHits, maxHits uint64
 	var loads uint64
